@@ -190,6 +190,10 @@ class Impl:
         router = H.Router()
         cur = None
         hits = []
+        regs = []
+        # every other case registers its routes through a Resource subclass instead of explicit Route objects
+        via_resource = sum(ord(ch) for ch in case[0]) % 2 == 1 and all(l.split()[2] in ("GET", "POST", "PUT", "DELETE")
+                                                                       for l in case[1:] if l.startswith("reg "))
         for line in case[1:]:
             w = line.split()
             if not w:
@@ -224,6 +228,31 @@ class Impl:
                 def cb(request, _rid=rid):
                     hits.append((_rid, dict(request.matches)))
                     return H.JsonResponse({"route": _rid}, 200)
+                if via_resource:
+                    # the usual way to register: decorated methods of a Resource subclass, in DEFINITION order (the method names are
+                    # chosen so that definition order is the reverse of alphabetical order); the class is rebuilt with one more method
+                    try:
+                        H.Router().registerRoutes([H.Route("r%d" % rid, w[2], unhx(w[3]), cb)])     # refused routes are refused alike
+                    except Exception as e:
+                        out.append("err:" + type(e).__name__)
+                        continue
+                    regs.append((rid, w[2], unhx(w[3])))
+                    ns = H.OrderedPropertyMap()
+                    for i, (r_, meth, pat) in enumerate(regs):
+                        def h(self, request, _rid=r_):
+                            hits.append((_rid, dict(request.matches)))
+                            return H.JsonResponse({"route": _rid}, 200)
+                        h.__name__ = "h%03d_%d" % (999 - i, r_)
+                        ns[h.__name__] = {"GET": H.get, "POST": H.post, "PUT": H.put, "DELETE": H.delete}[meth](pat)(h)
+                        if hasattr(h, "_options"):
+                            del h._options          # no body-size rule: explicit Route objects have none either (the requests carry no body)
+                    try:
+                        router = H.Router()
+                        router.registerRoutes(H.OrderedClass("GenResource", (H.Resource,), ns)())
+                        out.append("ok")
+                    except Exception as e:
+                        out.append("err:" + type(e).__name__)
+                    continue
                 try:
                     router.registerRoutes([H.Route("r%d" % rid, w[2], unhx(w[3]), cb)])
                     out.append("ok")
@@ -234,7 +263,7 @@ class Impl:
                 if res is None:
                     out.append("r none")
                 else:
-                    out.append("r %s %s" % (res[0].name[1:], show_bindings(res[1])))
+                    out.append("r %s %s" % (res[0].name.split("_")[-1] if via_resource else res[0].name[1:], show_bindings(res[1])))
             elif op == "dispatch":
                 del hits[:]
                 req = H.Request(self.fresh_addr(), w[1], unhx(w[2]), {}, "", {}, None)
@@ -403,15 +432,30 @@ def monitor_table(impl, routes, queries, ctx, case):
     router = H.Router()
     hits = []
     reg = []
+    deco = {"GET": H.get, "POST": H.post, "PUT": H.put, "DELETE": H.delete}
+    via_resource = sum(ord(ch) for ch in case[0]) % 2 == 1 and all(m in deco for _r, m, _p in routes)
+    ns = H.OrderedPropertyMap()
     for rid, method, pattern in routes:
         def cb(request, _rid=rid):
             hits.append(_rid)
             return H.JsonResponse({}, 200)
         try:
-            router.registerRoutes([H.Route("r%d" % rid, method, pattern, cb)])
+            (H.Router() if via_resource else router).registerRoutes([H.Route("r%d" % rid, method, pattern, cb)])
             reg.append((rid, method, parse_pattern(pattern)))
         except Exception:
-            pass
+            continue
+        if via_resource:
+            # the same table as decorated methods of a Resource subclass: registration order = DEFINITION order (method names chosen so
+            # that it is the reverse of alphabetical order)
+            def h(self, request, _rid=rid):
+                hits.append(_rid)
+                return H.JsonResponse({}, 200)
+            h.__name__ = "h%03d_%d" % (999 - len(reg), rid)
+            ns[h.__name__] = deco[method](pattern)(h)
+            if hasattr(h, "_options"):
+                del h._options
+    if via_resource:
+        router.registerRoutes(H.OrderedClass("GenResource", (H.Resource,), ns)())
     for idx, (method, path) in queries:
         if "\n" in path or not path.startswith("/"):
             continue
